@@ -334,7 +334,13 @@ func conformOne(sc *Scenario, trace []string) (blocks int, errStr string) {
 }
 
 // conformance re-executes n explored paths (the deepest ones, evenly spread) on the full SimApp.
-func conformance(e *Engine, n int) (int, int, []string) {
+// ConfErr is one explored path on which the explorer and the full application disagree.
+type ConfErr struct {
+	Trace []string
+	Msg   string
+}
+
+func conformance(e *Engine, n int) (int, int, []ConfErr) {
 	// candidate leaves: nodes of the deepest levels
 	var ids []int32
 	maxd := int16(0)
@@ -361,7 +367,7 @@ func conformance(e *Engine, n int) (int, int, []string) {
 		}
 	}
 	var mu sync.Mutex
-	var errs []string
+	var errs []ConfErr
 	done, blocks := 0, 0
 	var wg sync.WaitGroup
 	ch := make(chan int32, len(pick))
@@ -374,12 +380,13 @@ func conformance(e *Engine, n int) (int, int, []string) {
 		go func() {
 			defer wg.Done()
 			for id := range ch {
-				b, es := conformOne(e.Sc, e.trace(id))
+				tr := e.trace(id)
+				b, es := conformOne(e.Sc, tr)
 				mu.Lock()
 				done++
 				blocks += b
 				if es != "" && len(errs) < 5 {
-					errs = append(errs, es)
+					errs = append(errs, ConfErr{Trace: tr, Msg: es})
 				}
 				mu.Unlock()
 			}
